@@ -30,6 +30,7 @@ func runC32(c *Ctx) {
 		return
 	}
 	c32DecryptClamp(c)
+	c.DeadObligations(c.W.FuncsOfPkg("z/tls"), "package tls")
 	// ---------------- bounds
 	scope := []string{
 		"(*" + pkg + ".rsaKeyAgreement).processClientKeyExchange",
